@@ -4,7 +4,6 @@ package c19
 // with a real v1 keystore, real envelopes produced by the registry handler and three readers.
 
 import (
-	"bytes"
 	"context"
 	"encoding/hex"
 	"fmt"
@@ -20,13 +19,14 @@ import (
 	pg "github.com/cossacklabs/acra/decryptor/postgresql"
 	encryptor "github.com/cossacklabs/acra/encryptor/base"
 	"github.com/cossacklabs/acra/encryptor/base/config"
+	"github.com/cossacklabs/acra/hmac"
 	"github.com/cossacklabs/acra/keystore"
 	"github.com/cossacklabs/acra/keystore/filesystem"
+	"github.com/cossacklabs/acra/masking"
 	"github.com/cossacklabs/acra/pseudonymization"
 	pcommon "github.com/cossacklabs/acra/pseudonymization/common"
 	"github.com/cossacklabs/acra/pseudonymization/storage"
 	"github.com/cossacklabs/acra/sqlparser"
-	"github.com/jackc/pgx/v5/pgproto3"
 
 	"verifharness/internal/core"
 )
@@ -65,6 +65,9 @@ func chainSetup() {
 			if err := ks.GenerateDataEncryptionKeys(id); err != nil {
 				panic("harness: " + err.Error())
 			}
+			if err := ks.GenerateHmacKey(id); err != nil {
+				panic("harness: " + err.Error())
+			}
 		}
 		if err := crypto.InitRegistry(ks); err != nil {
 			panic("harness: registry: " + err.Error())
@@ -91,14 +94,82 @@ func readerID(r string) []byte {
 	return nokeysID
 }
 
-// protect encrypts a plaintext for the owner exactly as the write path does (registry handler, column setting).
+// writeChain: the data encryptors in the order the proxy factories chain them (decryptor/{postgresql,mysql}/proxy.go):
+// tokenization, encryption, searchable encryption, masking, re-encryption. Every link looks at the column setting and
+// passes on what is not its business.
+func writeChain() encryptor.DataEncryptor {
+	registryHandler := crypto.NewRegistryHandler(chainStore)
+	tokenizer, err := pseudonymization.NewDataTokenizer(chainTok)
+	if err != nil {
+		panic("harness: " + err.Error())
+	}
+	tokenEncryptor, err := pseudonymization.NewTokenEncryptor(tokenizer)
+	if err != nil {
+		panic("harness: " + err.Error())
+	}
+	searchable, err := hmac.NewSearchableEncryptor(chainStore, registryHandler, registryHandler)
+	if err != nil {
+		panic("harness: " + err.Error())
+	}
+	maskingEncryptor, err := masking.NewMaskingDataEncryptor(chainStore, encryptor.NewChainDataEncryptor([]encryptor.DataEncryptor{registryHandler}...))
+	if err != nil {
+		panic("harness: " + err.Error())
+	}
+	return encryptor.NewChainDataEncryptor(tokenEncryptor, crypto.NewEncryptHandler(registryHandler), searchable, maskingEncryptor, crypto.NewReEncryptHandler(chainStore))
+}
+
+// protect stores a plaintext for the owner exactly as the write path does for the column's setting
+// (envelope; 33-byte hash ++ envelope for searchable columns; clear part ++ envelope for masked ones; a token).
 func protect(plain []byte, setting config.ColumnEncryptionSetting) []byte {
-	h := crypto.NewRegistryHandler(chainStore)
-	out, err := h.EncryptWithClientID(ownerID, plain, setting)
+	out, err := writeChain().EncryptWithClientID(ownerID, plain, setting)
 	if err != nil {
 		panic("harness: protect: " + err.Error())
 	}
 	return out
+}
+
+// pgStoredWire: how PostgreSQL sends the stored value of a column of that kind, and the type it announces for it.
+// Protected columns are bytea; a tokenized column is stored under the type of its tokens.
+func pgStoredWire(kind, typ string, stored []byte, binaryFmt bool) ([]byte, uint32) {
+	hexForm := append([]byte("\\x"), []byte(hex.EncodeToString(stored))...)
+	if kind != "tokenized" {
+		if binaryFmt {
+			return stored, 17
+		}
+		return hexForm, 17
+	}
+	oid := uint32(pgOids[typ])
+	switch typ {
+	case "int32", "int64":
+		if binaryFmt {
+			return specEncode("pg", typ, true, stored), oid
+		}
+		return stored, oid
+	case "bytes":
+		if binaryFmt {
+			return stored, oid
+		}
+		return hexForm, oid
+	}
+	return stored, oid
+}
+
+// myStoredWire: the same for MySQL (column type code; value as it stands in a text / binary row).
+func myStoredWire(kind, typ string, stored []byte, binaryFmt bool) ([]byte, mybase.Type) {
+	if kind != "tokenized" {
+		return mybase.PutLengthEncodedString(stored), mybase.TypeVarString
+	}
+	switch typ {
+	case "int32", "int64":
+		t := mybase.Type(myTypeCodes[typ])
+		if binaryFmt {
+			return specEncode("my", typ, true, stored), t
+		}
+		return mybase.PutLengthEncodedString(stored), t
+	case "bytes":
+		return mybase.PutLengthEncodedString(stored), mybase.TypeBlob
+	}
+	return mybase.PutLengthEncodedString(stored), mybase.TypeVarString
 }
 
 func chainSession(reader string) (*common.ClientSession, context.Context) {
@@ -126,104 +197,89 @@ func pgChainProxy(store config.TableSchemaStore, reader string) (*pg.PgProxy, *c
 	return p.(*pg.PgProxy), session, ctx
 }
 
+// chainPg <type> <onFail> <default> <fmt> <reader> <plain>: the stored value is what the write path made of <plain> for
+// the owner; the reader's proxy (factory-wired subscribers) processes the row description and the column.
+func chainPg(kind string, a []string) string {
+	chainSetup()
+	setting, store, err := loadColumn(kindSpec(kind, a[0], a[1], parseDefault(a[2])), config.UsePostgreSQL)
+	if err != nil {
+		return "badsetting"
+	}
+	binary := a[3] == "binary"
+	wire, dbOid := pgStoredWire(kind, a[0], protect(core.UnHex(a[5]), setting), binary)
+	proxy, _, ctx := pgChainProxy(store, a[4])
+	// row description: id int4, c <dbOid> – rewritten by the real handleRowDescription from the session's query items
+	oid, e := rowDescriptionOID(setting, dbOid, binary)
+	if e != "" {
+		return e
+	}
+	val, err := proxy.VerifOnColumnDecryption(ctx, 1, wire, binary, setting)
+	if err != nil {
+		return fmt.Sprintf("desc %d %s wire %s", oid, showErr(err), core.Hex(wire))
+	}
+	return fmt.Sprintf("desc %d value %s wire %s", oid, core.Hex(val), core.Hex(wire))
+}
+
+// chainMy <type> <onFail> <default> <fmt> <reader> <plain>[,<plain2>…]: rows of one column `c` through the
+// factory-wired handler; "=x" items are stored in clear. Reports the final column type and every row value.
+func chainMy(kind string, a []string) string {
+	chainSetup()
+	setting, store, err := loadColumn(kindSpec(kind, a[0], a[1], parseDefault(a[2])), config.UseMySQL)
+	if err != nil {
+		return "badsetting"
+	}
+	binary := a[3] == "binary"
+	session, ctx := chainSession(a[4])
+	parser := sqlparser.New(sqlparser.ModeDefault)
+	ps := base.NewProxySetting(parser, store, chainStore, nil, acracensor.NewAcraCensor(), nil)
+	f, err := my.NewProxyFactory(ps, chainStore, chainTok)
+	if err != nil {
+		panic("harness: " + err.Error())
+	}
+	p, err := f.New(readerID(a[4]), session)
+	if err != nil {
+		panic("harness: proxy: " + err.Error())
+	}
+	h := p.(*my.Handler)
+	if err := h.VerifOnQuery(ctx, "select c from t"); err != nil {
+		return core.Err
+	}
+	_, origType := myStoredWire(kind, a[0], nil, binary)
+	field := &my.ColumnDescription{Table: []byte("t"), Name: []byte("c"), Type: origType}
+	my.VerifUpdateFieldEncodedType(field, store)
+	fields := []*my.ColumnDescription{field}
+	var outs, wires []string
+	for _, item := range splitComma(a[5]) {
+		var wire []byte
+		if len(item) > 0 && item[0] == '=' { // stored in clear
+			wire = mybase.PutLengthEncodedString(core.UnHex(item[1:]))
+		} else {
+			wire, _ = myStoredWire(kind, a[0], protect(core.UnHex(item), setting), binary)
+		}
+		wires = append(wires, core.Hex(wire))
+		var out []byte
+		hdr := 0
+		if binary {
+			hdr = 2
+			out, err = h.VerifProcessBinaryDataRow(ctx, append([]byte{0, 0}, wire...), fields)
+		} else {
+			out, err = h.VerifProcessTextDataRow(ctx, wire, fields)
+		}
+		if err != nil {
+			outs = append(outs, showErr(err))
+			break
+		}
+		outs = append(outs, core.Hex(out[hdr:]))
+	}
+	return fmt.Sprintf("type %d rows %s wire %s", field.Type, joinComma(outs), joinComma(wires))
+}
+
 func init() {
-	// C19.chain.pg <type> <onFail> <default> <fmt> <reader> <plain>: the stored value is the owner's envelope of
-	// <plain>; the reader's proxy (factory-wired subscribers) processes the row description and the column.
-	core.Register("C19.chain.pg", func(a []string) string {
-		chainSetup()
-		setting, store, err := loadSetting(a[0], a[1], a[2], config.UsePostgreSQL)
-		if err != nil {
-			return "badsetting"
-		}
-		binary := a[3] == "binary"
-		blob := protect(core.UnHex(a[5]), setting)
-		wire := blob
-		if !binary {
-			wire = append([]byte("\\x"), []byte(hex.EncodeToString(blob))...)
-		}
-		proxy, session, ctx := pgChainProxy(store, a[4])
-		// row description: id int4, c bytea – rewritten by the real handleRowDescription from the session's query items
-		encryptor.SaveQueryDataItemsToClientSession(session, []*encryptor.QueryDataItem{nil, encryptor.NewQueryDataItem(setting, "t", "c", "")})
-		rd := &pgproto3.RowDescription{Fields: []pgproto3.FieldDescription{
-			{Name: []byte("id"), TableOID: 1, TableAttributeNumber: 1, DataTypeOID: 23, DataTypeSize: 4, TypeModifier: -1},
-			{Name: []byte("c"), TableOID: 1, TableAttributeNumber: 2, DataTypeOID: 17, DataTypeSize: -1, TypeModifier: -1, Format: map[bool]int16{false: 0, true: 1}[binary]},
-		}}
-		raw, err := rd.Encode(nil)
-		if err != nil {
-			panic("harness: " + err.Error())
-		}
-		ph, _ := pg.NewDbSidePacketHandler(bytes.NewReader(raw), nil, quietLogger)
-		if err := ph.ReadPacket(); err != nil {
-			panic("harness: " + err.Error())
-		}
-		if err := pg.VerifHandleRowDescription(ctx, ph, quietLogger); err != nil {
-			return core.Err
-		}
-		out, _ := ph.Marshal()
-		var rd2 pgproto3.RowDescription
-		declared := int(out[1])<<24 | int(out[2])<<16 | int(out[3])<<8 | int(out[4])
-		if declared != len(out)-1 || rd2.Decode(out[5:]) != nil || len(rd2.Fields) != 2 {
-			return "bad-rowdescription"
-		}
-		oid := rd2.Fields[1].DataTypeOID
-		val, err := proxy.VerifOnColumnDecryption(ctx, 1, wire, binary, setting)
-		if err != nil {
-			return fmt.Sprintf("desc %d %s wire %s", oid, showErr(err), core.Hex(wire))
-		}
-		return fmt.Sprintf("desc %d value %s wire %s", oid, core.Hex(val), core.Hex(wire))
-	})
-	// C19.chain.my <type> <onFail> <default> <fmt> <reader> <plain>[,<plain2>…]: rows of one column `c` (stored as
-	// VAR_STRING/253) through the factory-wired handler; plain "-" items are stored in clear, "!x" items are other
-	// clients' envelopes. Reports the final column type and every row value.
-	core.Register("C19.chain.my", func(a []string) string {
-		chainSetup()
-		setting, store, err := loadSetting(a[0], a[1], a[2], config.UseMySQL)
-		if err != nil {
-			return "badsetting"
-		}
-		binary := a[3] == "binary"
-		session, ctx := chainSession(a[4])
-		parser := sqlparser.New(sqlparser.ModeDefault)
-		ps := base.NewProxySetting(parser, store, chainStore, nil, acracensor.NewAcraCensor(), nil)
-		f, err := my.NewProxyFactory(ps, chainStore, chainTok)
-		if err != nil {
-			panic("harness: " + err.Error())
-		}
-		p, err := f.New(readerID(a[4]), session)
-		if err != nil {
-			panic("harness: proxy: " + err.Error())
-		}
-		h := p.(*my.Handler)
-		if err := h.VerifOnQuery(ctx, "select c from t"); err != nil {
-			return core.Err
-		}
-		field := &my.ColumnDescription{Table: []byte("t"), Name: []byte("c"), Type: mybase.TypeVarString}
-		my.VerifUpdateFieldEncodedType(field, store)
-		fields := []*my.ColumnDescription{field}
-		var outs []string
-		for _, item := range splitComma(a[5]) {
-			var stored []byte
-			if len(item) > 0 && item[0] == '=' { // stored in clear
-				stored = core.UnHex(item[1:])
-			} else {
-				stored = protect(core.UnHex(item), setting)
-			}
-			var out []byte
-			hdr := 0
-			if binary {
-				hdr = 2
-				out, err = h.VerifProcessBinaryDataRow(ctx, append([]byte{0, 0}, mybase.PutLengthEncodedString(stored)...), fields)
-			} else {
-				out, err = h.VerifProcessTextDataRow(ctx, mybase.PutLengthEncodedString(stored), fields)
-			}
-			if err != nil {
-				outs = append(outs, showErr(err))
-				break
-			}
-			outs = append(outs, core.Hex(out[hdr:]))
-		}
-		return fmt.Sprintf("type %d rows %s", field.Type, joinComma(outs))
-	})
+	core.Register("C19.chain.pg", func(a []string) string { return chainPg("plain", a) })
+	core.Register("C19.chain.my", func(a []string) string { return chainMy("plain", a) })
+	// the same with the kind of the column setting in front: plain | searchable | masked | tokenized
+	core.Register("C19.chaink.pg", func(a []string) string { return chainPg(a[0], a[1:]) })
+	core.Register("C19.chaink.my", func(a []string) string { return chainMy(a[0], a[1:]) })
 }
 
 func splitComma(s string) []string {
